@@ -5,6 +5,7 @@ import struct
 import subprocess
 
 from .. import tracefmt as tf
+from ..prng import Rng
 from ..framework import result, emu_verdict, ihash
 from ..prv import Pvt, PrvError
 from ..world import BASE_CLOCK
@@ -137,8 +138,36 @@ def gen(rng, tier, idx):
         o = list(range(nthreads))
         ro.shuffle(o)
         orders.append(o)
+    rc = rng.derive("layout")
+    tablefmt = rc.u64() if (use_table and rc.chance(25)) else 0
+    if nlooms >= 2 and rc.chance(8):
+        # stream paths that differ only in the case of the loom name: same PIDs and TIDs on every node
+        pool = ["nodeA", "NodeA", "nodea", "NODEA", "nOdEa", "NODEa"]
+        for i, l in enumerate(looms):
+            l["name"] = pool[i] + ".x"
+            if i > 0:
+                l["procs"] = [{k: (list(v) if isinstance(v, list) else v) for k, v in p.items()} for p in looms[0]["procs"]]
+        hostnames = pool[:nlooms]
+        nhosts_new = nlooms
+        for i, l in enumerate(looms):
+            l["host"] = i
+        while len(skews) < nlooms:
+            skews.append(0)
+        if table_mode == "partial":
+            table_mode = "default"
+        keep = nlooms
+        nthreads2 = sum(len(p["threads"]) for l in looms for p in l["procs"])
+        sched = [[a % nthreads2, d] for a, d in sched]
+        orders = []
+        for _ in range(2):
+            o = list(range(nthreads2))
+            rc.shuffle(o)
+            orders.append(o)
+    # 10%: event-less streams that belong to no thread (ovni.part != "thread"), sorting before/between/after the others
+    rf = rng.derive("foreign")
+    nforeign = rf.u64() if rf.chance(10) else 0
     return {"looms": looms, "skews": skews, "table": table_mode, "keep": keep, "mode": mode, "sched": sched, "orders": orders,
-            "tie": tie, "hostnames": hostnames}
+            "tie": tie, "hostnames": hostnames, "foreign": nforeign, "tablefmt": tablefmt}
 
 
 def build(case):
@@ -201,8 +230,33 @@ def build(case):
         for h in hosts:
             if h >= case["keep"]:
                 continue
-            lines.append("%-10d %-20s %-20d %-19.3f %.3f\n" % (n, case.get("hostnames", ["h%d" % i for i in range(8)])[h], -skews[h], float(-skews[h]), 1.5))
+            name = case.get("hostnames", ["h%d" % i for i in range(8)])[h]
+            lines.append("%-10d %-20s %-20d %-19.3f %.3f\n" % (n, name, -skews[h], float(-skews[h]), 1.5))
             n += 1
+        if case.get("tablefmt"):
+            # the same table in another layout the parser reads identically (fields are blank-separated, leading
+            # blanks and empty lines are skipped): right-aligned columns, indentation of some or all entries, tabs
+            rf = Rng(case["tablefmt"])
+            style = rf.choice(["right", "indent-some", "indent-all", "tabs", "tight", "empty-lines"])
+            out = [lines[0]]
+            for k, ln in enumerate(lines[1:]):
+                f = ln.split()
+                if style == "right":
+                    ln = "%*s %20s %20s %19s %s\n" % (rf.choice([2, 4, 10]) if k < 10 else 2, f[0], f[1], f[2], f[3], f[4])
+                elif style == "indent-some":
+                    ln = (rf.choice(["", " ", "  ", "\t", "    "]) if k else " ") + ln
+                elif style == "indent-all":
+                    ln = "  " + ln
+                elif style == "tabs":
+                    ln = "\t".join(f) + "\n"
+                elif style == "tight":
+                    ln = " ".join(f) + "\n"
+                else:
+                    ln = ("\n" if rf.chance(50) else "") + ln
+                out.append(ln)
+            if rf.chance(30):
+                out.append("\n")
+            lines = out
         table = "".join(lines).encode()
     return threads, streams, recs, table, g
 
@@ -263,7 +317,10 @@ def run(case, ctx):
                     flags = ["-c", os.path.join(d, "offs.txt")]
                 else:
                     extra["clock-offsets.txt"] = table
-            tf.write_trace(tdir, streams, order=order, extra_files=extra)
+            foreign = tf.foreign_paths(Rng(case["foreign"]), streams) if case.get("foreign") else None
+            if foreign:
+                info["probes"]["event-less stream of a non-thread part present"] = 1
+            tf.write_trace(tdir, streams, order=order, extra_files=extra, foreign=foreign)
             observed = tf.observed_order(tdir)
             if case["mode"] == "dump":
                 r = check_dump(ctx, tdir, case, threads, streams, recs, info)
